@@ -5,7 +5,7 @@ Import ListNotations.
 From PT Require Export Model.Life Spec.Life_spec.
 Open Scope Z_scope.
 
-Record case := { c_min : nat; c_init : blind; c_steps : list lstepobs }.
+Record case := { c_min : nat; c_init : blind; c_mtt_players : bool; c_created : option tstatus; c_steps : list lstepobs }.
 
 Definition abs_state (o : lobs) (armed : option blind) : lstate :=
   {| l_status := lo_status o; l_gc := lo_gc o; l_has_game := lo_has_game o; l_blind := lo_blind o; l_gblind := lo_gblind o;
@@ -40,7 +40,13 @@ Fixpoint run_steps (min : nat) (i : nat) (armed : option blind) (seen : list nat
       run_steps min (S i) (l_armed m) seen' prev' t
   end.
 
-Definition check_case (c : case) : list (nat * nat) := run_steps (c_min c) 0 None [] 0 (c_steps c).
+Definition check_case (c : case) : list (nat * nat) :=
+  (* the status right after CreateTable is the model's initial status (a table created on a break starts paused) *)
+  (match c_created c with
+   | Some st => if status_eqb st (l_status (linit (c_mtt_players c) (c_init c))) then [] else [(5%nat, 9%nat)]
+   | None => []
+   end) ++
+  run_steps (c_min c) 0 None [] 0 (c_steps c).
 
 Fixpoint check_all (i : nat) (cs : list case) : list (nat * (nat * nat)) :=
   match cs with
@@ -55,4 +61,5 @@ Definition mklo (ev : bool) (st : tstatus) (gc : Z) (hg : bool) (gid : nat) (b :
      lo_hand_empty := he; lo_alive := alive; lo_live_in := livein; lo_released := rel; lo_started := strt; lo_gate_count := gcnt; lo_gate_n := gn; lo_gate_ready := gr |}.
 Definition mkls (o : lop) (pre : lobs) (evs : list lobs) (post : lobs) (closed wedged : bool) (opts : blind) : lstepobs :=
   {| ls_op := o; ls_pre := pre; ls_events := evs; ls_post := post; ls_closed := closed; ls_wedged := wedged; ls_opts := opts |}.
-Definition mklc (min : nat) (b : blind) (l : list lstepobs) : case := {| c_min := min; c_init := b; c_steps := l |}.
+Definition mklc (min : nat) (b : blind) (mp : bool) (cr : option tstatus) (l : list lstepobs) : case :=
+  {| c_min := min; c_init := b; c_mtt_players := mp; c_created := cr; c_steps := l |}.
